@@ -241,6 +241,7 @@ struct Runner {
     store: Option<RaftLog<VT>>,
     dump: Option<raft_log::Dump<VT>>,
     held: Vec<i32>,
+    ud_calls: u64,
     snap: Option<raft_log::DumpRaftLog<VT>>,
     stopped: bool,
     timeout: Duration,
@@ -754,7 +755,18 @@ impl Runner {
             ["ud", b] => {
                 let Some(b) = parse_opt_bytes(b) else { return self.emit("bad-op") };
                 let Some(s) = self.store.as_mut() else { return self.emit("ret err notFound") };
-                let r = catch_unwind(AssertUnwindSafe(|| s.save_user_data(b)));
+                // every other call goes through `update_state` (the same record: the current state with
+                // the new user data), the public non-trait way to write a State record
+                self.ud_calls += 1;
+                let r = if self.ud_calls % 2 == 0 {
+                    catch_unwind(AssertUnwindSafe(|| {
+                        let mut st = s.log_state().clone();
+                        st.user_data = b;
+                        s.update_state(st)
+                    }))
+                } else {
+                    catch_unwind(AssertUnwindSafe(|| s.save_user_data(b)))
+                };
                 self.ret_seg(r);
             }
             ["flush", cb] => {
@@ -1637,6 +1649,7 @@ fn main() {
         store: None,
         dump: None,
         held: vec![],
+        ud_calls: 0,
         snap: None,
         stopped: false,
         timeout: Duration::from_millis(timeout),
